@@ -253,18 +253,23 @@ flat = st.one_of(st.lists(st.sampled_from(['s', 't', 'u']), max_size=3), st.list
                  st.lists(st.lists(st.sampled_from(['s', 't']), max_size=2), min_size=1, max_size=2))
 
 
+def _w(pairs):
+    from ..gen import weighted
+    return weighted(pairs)
+
+
 @st.composite
 def cases(draw):
     ops = []
     for _ in range(draw(st.integers(1, 4))):
         op = {'kind': draw(st.sampled_from(['sub', 'sub', 'file'])),
               'args': draw(st.lists(st.one_of(container, leaf), max_size=2)),
-              'kwargs': draw(st.dictionaries(st.sampled_from(['kw', 'opt']), st.one_of(container, container, leaf), max_size=2)),
-              'ret': draw(st.one_of(container, container, leaf, flat)),
+              'kwargs': draw(st.dictionaries(st.sampled_from(['kw', 'opt']), _w([(2, container), (1, leaf)]), max_size=2)),
+              'ret': draw(_w([(2, container), (1, leaf), (1, flat)])),
               'query': draw(st.sampled_from([None, None, 'list_dir', 'walk']))}
         if draw(st.sampled_from(range(3))) == 0:
             op['raw_ret'] = True
-            op['ret'] = draw(st.one_of(flat, flat, container))
+            op['ret'] = draw(_w([(2, flat), (1, container)]))
             if draw(st.booleans()):
                 op['args'] = [draw(flat)] + op['args'][:1]
         if draw(st.sampled_from(range(3))) == 0:
